@@ -373,6 +373,15 @@ type replayFile struct {
 	Shrink    map[string]interface{} `json:"shrink"`
 	Tree      map[string]interface{} `json:"tree"`
 	Hang      bool                   `json:"hang,omitempty"` // replay = re-run run_index of base_seed and expect no progress again
+	History   *historySpec           `json:"history,omitempty"`
+}
+
+// historySpec says that the violation needs the runs [From,To) of BaseSeed
+// executed in one process, in order: the library carried state from one run
+// (one connection) to a later one.
+type historySpec struct {
+	From int `json:"from"`
+	To   int `json:"to"`
 }
 
 func check(id, tier string) int {
@@ -411,6 +420,7 @@ func check(id, tier string) int {
 	logs := make([]string, workers)
 	var wg sync.WaitGroup
 	per := (total + workers - 1) / workers
+	perWorker = per
 	for w := 0; w < workers; w++ {
 		from, to := w*per, (w+1)*per
 		if to > total {
@@ -561,6 +571,68 @@ func tail(s string, n int) string {
 
 // minimiseAndRecord shrinks a failing run, writes its replay file and verifies
 // that the file reproduces class and digest in a fresh process.
+// perWorker is the size of the contiguous run ranges of the current check.
+var perWorker int
+
+// historyReplay looks for the shortest window of consecutive runs ending at
+// f.Index that reproduces class in a fresh process.
+func historyReplay(spec *meta.Spec, tier string, base uint64, f found, class string, per int) (string, *replayFile, bool) {
+	if per <= 0 {
+		return "", nil, false
+	}
+	chunkStart := (f.Index / per) * per
+	runWindow := func(from int) (*found, bool) {
+		o := &batchOut{}
+		j := &job{Mode: "batch", Prop: spec.ID, Tier: tier, Base: base, From: from, To: f.Index + 1}
+		if _, err := runWorker(spec, j, 1200*time.Second, o); err != nil {
+			return nil, false
+		}
+		for i := range o.Found {
+			if o.Found[i].Result.Viol.Class() == class {
+				return &o.Found[i], true
+			}
+		}
+		return nil, false
+	}
+	var hit *found
+	from := -1
+	for w := 2; ; w *= 2 {
+		st := f.Index + 1 - w
+		if st < chunkStart {
+			st = chunkStart
+		}
+		if h, ok := runWindow(st); ok {
+			// Twice, to be sure it is not chance.
+			if _, ok2 := runWindow(st); ok2 {
+				hit, from = h, st
+			}
+			break
+		}
+		if st == chunkStart {
+			break
+		}
+	}
+	if hit == nil {
+		return "", nil, false
+	}
+	res := hit.Result
+	rf := &replayFile{
+		Property: res.Viol.Prop, Engine: spec.Engine, Tier: tier, Seed: hit.Seed, BaseSeed: base, Index: hit.Index,
+		Class: class, Violation: res.Viol, Digest: res.Digest, Tape: res.Tape, Decisions: res.Decisions, Sample: res.Sample,
+		History: &historySpec{From: from, To: f.Index + 1},
+		Shrink:  map[string]interface{}{"note": "the violating run does not fail on its own tape alone: it needs the earlier runs of the window in the same process (state carried across connections); replay re-runs the window"},
+		Tree:    treeID(),
+	}
+	dir := filepath.Join(root, "replays")
+	os.MkdirAll(dir, 0o755)
+	path := filepath.Join(dir, fmt.Sprintf("%s-%d-%s-history.json", spec.ID, hit.Seed, sanitize(res.Viol.Rule+"-"+res.Viol.Entry)))
+	b, _ := json.MarshalIndent(rf, "", " ")
+	if err := os.WriteFile(path, b, 0o644); err != nil {
+		return "", nil, false
+	}
+	return path, rf, true
+}
+
 func minimiseAndRecord(spec *meta.Spec, tier string, base uint64, f found) (string, *replayFile, error) {
 	class := f.Result.Viol.Class()
 	so := &shrinkOut{}
@@ -591,6 +663,14 @@ func minimiseAndRecord(spec *meta.Spec, tier string, base uint64, f found) (stri
 		sj := &job{Mode: "shrink", Prop: spec.ID, Tier: tier, Tape: f.Result.Tape, Class: class, MaxExec: 2000, MaxSec: 60, Retries: retriesFor(spec, class)}
 		if log, err := runWorker(spec, sj, 240*time.Second, so); err != nil {
 			return "", nil, fmt.Errorf("shrink of %s failed: %v\n%s", class, err, tail(log, 20))
+		}
+	}
+	if (!so.Repro || so.Result == nil) && !strings.Contains(class, "/data_race/") {
+		// Not reproducible from its own tape alone: maybe the library carried
+		// state over from earlier runs of the same process (a package-level
+		// cache, a pooled object). Replay a window of runs ending at this one.
+		if path, rf, ok := historyReplay(spec, tier, base, f, class, perWorker); ok {
+			return path, rf, nil
 		}
 	}
 	if !so.Repro || so.Result == nil {
@@ -723,6 +803,38 @@ func replay(path string) int {
 	if err := json.Unmarshal(b, &rf); err != nil {
 		fmt.Fprintln(os.Stderr, err)
 		return 2
+	}
+	if rf.History != nil {
+		id := rf.Class
+		if i := strings.Index(id, "/"); i > 0 {
+			id = id[:i]
+		}
+		if b := filepath.Base(path); strings.Index(b, "-") > 0 && meta.Find(b[:strings.Index(b, "-")]) != nil {
+			id = b[:strings.Index(b, "-")]
+		}
+		spec := meta.Find(id)
+		if spec == nil {
+			fmt.Fprintln(os.Stderr, "unknown property", id)
+			return 2
+		}
+		if err := buildWorkers(spec.Race); err != nil {
+			fmt.Fprintln(os.Stderr, err)
+			return 2
+		}
+		o := &batchOut{}
+		j := &job{Mode: "batch", Prop: spec.ID, Tier: rf.Tier, Base: rf.BaseSeed, From: rf.History.From, To: rf.History.To}
+		if _, err := runWorker(spec, j, 1200*time.Second, o); err != nil {
+			fmt.Fprintln(os.Stderr, "replay failed:", err)
+			return 2
+		}
+		for _, f := range o.Found {
+			if f.Result.Viol.Class() == rf.Class {
+				fmt.Printf("replay of %s (runs %d..%d in one process): %s: %s\nVIOLATION property=%s replay=%s\n", path, rf.History.From, rf.History.To-1, rf.Class, f.Result.Viol.Detail, spec.ID, path)
+				return 1
+			}
+		}
+		fmt.Printf("replay of %s (runs %d..%d in one process): no violation of class %s on this tree\n", path, rf.History.From, rf.History.To-1, rf.Class)
+		return 0
 	}
 	if rf.Hang {
 		spec := meta.Find(rf.Property)
